@@ -22,7 +22,7 @@ func init() {
 			"(5) nothing reachable from the index functions reads a clock, randomness, the environment or iterates a map; (6) NewReMap fills boundaries y*(i+1) and forces the last to MaxUint64. " +
 			"NOT decided: equality of sharded and unsharded containers over whole histories (only routing and delegation), quality of the hash.",
 		Assumptions: []string{"1 <= numbs <= MaxInt64 (a shard count of 0 divides by zero in NewReMap itself)", "sort.Search(n,f) returns a value in [0,n]"},
-		Floors:      map[string]int{"C17.index-range": 3, "C17.construction": 6, "C17.index-provenance": 20, "C17.delegation": 20, "C17.deterministic": 3, "C17.partition": 2},
+		Floors:      map[string]int{"C17.index-range": 3, "C17.construction": 6, "C17.index-provenance": 20, "C17.delegation": 20, "C17.deterministic": 3, "C17.partition": 2, "C17.multi-key-route": 1},
 		Run:         runC17,
 	})
 }
@@ -52,6 +52,52 @@ func runC17(c *Ctx) {
 	c.checkDeterministic()
 	for _, w := range wideContainers {
 		c.checkWideContainer("C17", w, numbs)
+	}
+	c.checkMultiKeyRoute()
+}
+
+// checkMultiKeyRoute: the multi-key forms of the sharded key locker route each key with the container's own
+// index function, the one the single-key forms use — otherwise Locks([k]) and Lock(k) are different locks.
+func (c *Ctx) checkMultiKeyRoute() {
+	const rel = "syncx/keylock"
+	fn := c.mustFn(rel, "(*TKeyLockerGrp).calculateSortedMultiKeys")
+	calKey := c.mustField(rel, "TKeyLockerGrp", "calKeyFn")
+	if fn == nil || calKey == nil {
+		return
+	}
+	cons := "(*keylock.TKeyLockerGrp).calculateSortedMultiKeys"
+	traces, complete := c.Trace(fn, TraceConfig{})
+	if !complete {
+		c.undecided("C17.multi-key-route", cons, fn.Pos(), "path budget exceeded")
+		return
+	}
+	ok, n := true, 0
+	for _, t := range traces {
+		for i, e := range t.Events {
+			if e.Kind != EvMapUpdate || e.Addr.root().Kind != KAlloc {
+				continue
+			}
+			n++
+			k := e.Args[0]
+			routed := false
+			for _, y := range t.Events {
+				if y.Kind == EvCall && y.Val != nil && y.Res != nil && y.Res.Key() == k.Key() && len(y.Args) == 1 {
+					if _, isCal := isInitOfField(y.Val, calKey); isCal {
+						// the routed value is an element of the caller's key list
+						routed = y.Args[0].strip().root().Kind == KParam || y.Args[0].strip().Kind == KInit
+					}
+				}
+			}
+			if !routed && ok {
+				ok = false
+				c.violated("C17.multi-key-route", cons, e.Pos, "the multi-key forms group keys by something other than calKeyFn(key), the routing of the single-key forms: in an xxhash group Locks([k]) and Lock(k) land on different shards, so the sharded locker no longer behaves as the unsharded one (no exclusion between the two forms; Unlock after Locks hits a missing entry)", c.witness(t, i)...)
+			}
+		}
+	}
+	if ok && n > 0 {
+		c.holds("C17.multi-key-route", cons, fn.Pos(), fmt.Sprintf("%d grouping sites keyed by calKeyFn(key)", n))
+	} else if ok {
+		c.undecided("C17.multi-key-route", cons, fn.Pos(), "no grouping site found")
 	}
 }
 
